@@ -26,6 +26,7 @@ r1 = [m for m in metas if m["seed"][-1] in "AB"]
 r2 = [m for m in metas if m["seed"][-1] in "CD"]
 r3 = [m for m in metas if m["seed"][-1] in "EF"]
 r4 = [m for m in metas if m["seed"][-1] in "GH"]
+r5 = [m for m in metas if m["seed"][-1] in "IJ"]
 out = []
 out.append("""# Independently seeded property-breaking changes
 
@@ -52,6 +53,9 @@ if r3:
 if r4:
     out.append("Round 4: caught at the first attempt %d of %d; caught now %d of %d." % (
         sum(1 for m in r4 if first(m)), len(r4), sum(1 for m in r4 if now(m)), len(r4)))
+if r5:
+    out.append("Round 5 (ten properties): caught at the first attempt %d of %d; caught now %d of %d." % (
+        sum(1 for m in r5 if first(m)), len(r5), sum(1 for m in r5 if now(m)), len(r5)))
 out.append("""
 (C12-B only on the pre-fix tree: a later repair rewrote the same condition.)
 The seeding agents also pointed at defects that already existed in /repo: the
